@@ -216,6 +216,80 @@ def motif_ambiguity(run, scratch):
     return ncase
 
 
+def spec_q_pruning(run, scratch):
+    """lnL of every MarkovQ.tla instance (codon models under two genetic codes, dinucleotide, user-built, general):
+    the real function's per-column likelihoods against a pruning whose rate matrix is the SPEC's exact Q (TLC output)
+    and whose exponential is scipy's (float, harness side).  Binds the likelihood of the large models to the
+    published definition of Q rather than to cogent3's own matrix."""
+    import random
+
+    import check_C05
+    from cogent3 import make_aligned_seqs
+    from scipy.linalg import expm
+
+    emit = scratch / "q.ndjson"
+    cfg = "MC_MarkovQ_quick.cfg" if run.tier == "quick" else "MC_MarkovQ_thorough.cfg"
+    res = run_tlc("MC_MarkovQ", cfg, scratch, workers=1, env={"EMIT_FILE": emit}, timeout=1500, heap="4g")
+    run.add_tlc(res)
+    rnd = random.Random(run.seed)
+    seen = set()
+    n = 0
+    for rec in read_emitted(emit):
+        ident = (rec["name"], rec["kind"], rec["tag"])
+        if ident in seen:
+            continue
+        seen.add(ident)
+        key0 = f"specQ-pruning:{rec['name']}:{rec['kind']}" + (f":gc={rec['gc']}" if rec.get("gc", 1) != 1 else "")
+        try:
+            lf = check_C05.make_lf(rec)
+        except Exception as ex:
+            run.fail(f"{key0}:build-raised", {"instance": rec["name"], "exception": repr(ex)}, what="cannot build likelihood function")
+            continue
+        states = sorted("".join(w) for w, _ in rec["wp"])
+        idx = {s: i for i, s in enumerate(states)}
+        Q = np.zeros((len(states), len(states)))
+        for i, j, q in rec["cells"]:
+            Q[idx["".join(i)], idx["".join(j)]] = float(frac(q))
+        wp = np.array([float(frac(v)) for _, v in sorted(((("".join(w)), v) for w, v in rec["wp"]))])
+        ncol = 12
+        cols = [[rnd.choice(states) for _ in "abc"] for _ in range(ncol)]
+        # a column repeated and one with all tips equal
+        cols.append(list(cols[0]))
+        cols.append([states[0]] * 3)
+        seqs = {t: "".join(c[k] for c in cols) for k, t in enumerate("abc")}
+        mt = "dna"
+        try:
+            lf.set_alignment(make_aligned_seqs(seqs, moltype=mt))
+        except Exception as ex:
+            run.extra.setdefault("unsupported", []).append(f"{key0}: set_alignment {ex!r}"[:160])
+            continue
+        # set_alignment may re-estimate motif probs from the data: put the instance's own back
+        lf2 = check_C05.make_lf(rec)
+        lf2.set_alignment(make_aligned_seqs(seqs, moltype=mt))
+        if rec["kind"] == "monomers":
+            for pos in ("0", "1", "2"):
+                lf2.set_param_rule("psmprobs", position=pos, value={w[1]: float(frac(v)) for w, v in rec["pi"] if w[0] == pos}, is_constant=True)
+        else:
+            lf2.set_motif_probs({"".join(w): float(frac(v)) for w, v in rec["pi"]})
+        for pn, v in rec["params"]:
+            lf2.set_param_rule(pn, value=float(frac(v)), is_constant=True)
+        got = np.asarray(lf2.get_full_length_likelihoods(), dtype=float)
+        P = {e: expm(Q * lf2.get_param_value("length", edge=e)) for e in "abc"}
+        # root distribution: the word probabilities (stationary models) / the supplied motif probs (general models)
+        bad = []
+        for c, col in enumerate(cols):
+            v = wp.copy()
+            for k, e in enumerate("abc"):
+                v = v * P[e][:, idx[col[k]]]
+            want = float(v.sum())
+            n += 1
+            if abs(got[c] - want) > 1e-8 * want:
+                bad.append((c, col, float(got[c]), want))
+        if bad:
+            run.fail(key0 + ":column-likelihood", {"instance": rec["name"], "tag": rec["tag"], "gc": rec.get("gc", 1), "params": rec["params"], "mismatches": bad[:6], "n_bad": len(bad)}, what=f"{len(bad)} per-column likelihoods differ from pruning with the published Q")
+    return n
+
+
 def check(run: Run):
     cfg = "MC_Felsenstein_quick.cfg" if run.tier == "quick" else "MC_Felsenstein_thorough.cfg"
     with Scratch("C02") as scratch:
@@ -237,6 +311,7 @@ def check(run: Run):
             models += ["JTT92"]
         nnorm = all_columns_sum(run, run.seed, models)
         nnorm += motif_ambiguity(run, scratch)
+        nnorm += spec_q_pruning(run, scratch)
     run.cov["traces_validated_against_impl"] = len(seen)
     run.cov["evaluations"] = ncols + nnorm
     run.cov["distinct_nontrivial"] = ncols
@@ -250,7 +325,8 @@ def check(run: Run):
     run.note("normalisation_models", models)
     run.assumptions += [
         "ln for branch lengths / lnL and float comparison (rtol 1e-10) are harness-side",
-        "exact oracle only for the Tamura-Nei family on <= 4 tips; other models: Q by C05, pruning structure by C11, normalisation here",
+        "exact oracle only for the Tamura-Nei family on <= 4 tips; other models (codon under two genetic codes, dinucleotide, user-built, GN): "
+        "per-column likelihood against pruning with the SPEC's exact Q and scipy's expm (float, rtol 1e-8), Q itself by C05, pruning structure by C11, normalisation here",
     ]
 
 
